@@ -100,6 +100,11 @@ def main():
                 for h in kr['failed']:
                     if h in exp:
                         cx = kani.counterexample(kr, h)
+                        fc = (cx or {}).get('failed_checks') or []
+                        if fc and all('unwinding assertion' in x for x in fc):
+                            # only the loop bound of the harness was exceeded: the bounded exploration is incomplete, nothing was refuted
+                            undecided.append(f"{uname}: harness {h}: unwinding assertion failed (loop bound of the harness too small for this code) - undecided, not a violation")
+                            continue
                         violations.append(dict(unit=uname.replace(':', '_'), obligation=h.replace('::', '_'), errors=[dict(msg='kani: assertion failed', line=0, file='kani/src/lib.rs', fn=h)],
                                                ring=None, kani=cx))
                     else:
